@@ -52,6 +52,9 @@ use std::time::{Duration, Instant};
 const MAGIC: [u8; 4] = [0xe3, 0xe1, 0xf3, 0xe8]; // Network::BSV_Mainnet
 
 static PANICS: AtomicUsize = AtomicUsize::new(0);
+/// sessions of this process that ran into the whole-session watchdog; `GENERATING` is set by `gen` (never in `replay`)
+static WATCHDOG_HITS: AtomicUsize = AtomicUsize::new(0);
+static GENERATING: AtomicBool = AtomicBool::new(false);
 static HOOK: Once = Once::new();
 
 /// counts panics of every thread (the peer's threads cannot be joined), then calls the previous hook
@@ -180,6 +183,8 @@ struct Shared {
     disc: AtomicUsize,
     msgs: AtomicUsize,
     ping_nonces: Mutex<Vec<u64>>,
+    /// results of the `send` attempted from INSIDE the disconnected-event callback (a "later send", on the publishing thread)
+    cb_sends: Mutex<Vec<String>>,
 }
 
 struct Obs { sh: Arc<Shared> }
@@ -187,7 +192,14 @@ impl Observer<PeerConnected> for Obs {
     fn next(&self, _e: &PeerConnected) { self.sh.log.lock().unwrap().push("C".into()); self.sh.conn.fetch_add(1, Ordering::SeqCst); }
 }
 impl Observer<PeerDisconnected> for Obs {
-    fn next(&self, _e: &PeerDisconnected) { self.sh.log.lock().unwrap().push("D".into()); self.sh.disc.fetch_add(1, Ordering::SeqCst); }
+    fn next(&self, e: &PeerDisconnected) {
+        self.sh.log.lock().unwrap().push("D".into());
+        self.sh.disc.fetch_add(1, Ordering::SeqCst);
+        // the disconnection has been announced: a send from here must fail with an error at once (it runs on the thread that
+        // is publishing the event, inside disconnect())
+        let r = send_class(&e.peer.send(&Message::Ping(Ping { nonce: 0xcb })));
+        self.sh.cb_sends.lock().unwrap().push(r);
+    }
 }
 impl Observer<PeerMessage> for Obs {
     fn next(&self, e: &PeerMessage) {
@@ -265,10 +277,13 @@ fn wait_until<F: Fn() -> bool>(limit: Duration, f: F) -> bool {
 }
 
 /// runs `f` on a second thread; `None` if it does not return within 3 s
-fn on_thread<T: Send + 'static, F: FnOnce() -> T + Send + 'static>(f: F) -> Option<T> {
+fn on_thread<T: Send + 'static, F: FnOnce() -> T + Send + 'static>(f: F) -> Option<T> { on_thread_for(Duration::from_secs(3), f) }
+
+/// runs `f` on another thread; `None` if it does not return within `limit` (the thread is then left behind)
+fn on_thread_for<T: Send + 'static, F: FnOnce() -> T + Send + 'static>(limit: Duration, f: F) -> Option<T> {
     let (tx, rx) = std::sync::mpsc::channel();
     thread::spawn(move || { let _ = tx.send(f()); });
-    rx.recv_timeout(Duration::from_secs(3)).ok()
+    rx.recv_timeout(limit).ok()
 }
 
 struct Session {
@@ -279,6 +294,7 @@ struct Session {
     ping_nonces: Vec<u64>,
     conn: bool, minfee: u64, sendheaders: bool, sendcmpct: bool,
     late: (usize, usize, usize),
+    cb: Vec<String>,
     after: String,
     panics: usize,
     sent_tags: Vec<String>,
@@ -439,7 +455,7 @@ fn run_session(minh: i32, seg: &Seg, toks: &[Tok]) -> Result<Session, String> {
         log, rx: rx.lock().unwrap().clone(), sends, race_sends: race_sends.lock().unwrap().clone(),
         ping_nonces: sh.ping_nonces.lock().unwrap().clone(),
         conn: peer.connected(), minfee: peer.minfee(), sendheaders: peer.sendheaders(), sendcmpct: peer.sendcmpct(),
-        late, after, panics: PANICS.load(Ordering::SeqCst) - panics0, sent_tags,
+        late, cb: sh.cb_sends.lock().unwrap().clone(), after, panics: PANICS.load(Ordering::SeqCst) - panics0, sent_tags,
     };
     drop(obs); drop(obs2);
     Ok(s)
@@ -448,9 +464,9 @@ fn run_session(minh: i32, seg: &Seg, toks: &[Tok]) -> Result<Session, String> {
 fn join_or_dash(v: &[String], sep: &str) -> String { if v.is_empty() { "-".into() } else { v.join(sep) } }
 
 fn render_session(s: &Session) -> String {
-    format!("ok:ev={}|rx={}|sr={}|st={},{},{},{}|late={},{},{}|after={}|panics={}",
+    format!("ok:ev={}|rx={}|sr={}|st={},{},{},{}|late={},{},{}|cb={}|after={}|panics={}",
         join_or_dash(&s.log, ">"), join_or_dash(&render_rx(&s.rx), ","), join_or_dash(&s.sends, ","),
-        s.conn as u8, s.minfee, s.sendheaders as u8, s.sendcmpct as u8, s.late.0, s.late.1, s.late.2, s.after, s.panics)
+        s.conn as u8, s.minfee, s.sendheaders as u8, s.sendcmpct as u8, s.late.0, s.late.1, s.late.2, join_or_dash(&s.cb, ","), s.after, s.panics)
 }
 
 /// Race-insensitive summary: `c` = connected events; `cfirst` = the connected event precedes every
@@ -489,7 +505,12 @@ fn summarise_race(s: &Session) -> String {
 mod conc;
 
 pub fn exec(op: &str, a: &[&str]) -> Option<String> {
-    if op == "c12.conc" { return Some(conc::exec_conc(a)); }
+    if op == "c12.conc" {
+        // watchdog: a peer that deadlocks (e.g. on its own tcp_writer mutex) must make the case `hang`, not the harness
+        let owned: Vec<String> = a.iter().map(|x| x.to_string()).collect();
+        if GENERATING.load(Ordering::SeqCst) && WATCHDOG_HITS.load(Ordering::SeqCst) >= 6 { return Some("skipped:watchdog".into()); }
+        return Some(on_thread_for(Duration::from_secs(25), move || { let r: Vec<&str> = owned.iter().map(|x| x.as_str()).collect(); conc::exec_conc(&r) }).unwrap_or_else(|| "hang".into()));
+    }
     if op != "c12.session" && op != "c12.race" { return None; }
     if a.len() != 3 { return Some("bad-request".into()); }
     let minh: i32 = match a[0].parse() { Ok(v) => v, Err(_) => return Some("bad-request".into()) };
@@ -498,10 +519,16 @@ pub fn exec(op: &str, a: &[&str]) -> Option<String> {
     if a[2] != "-" { for t in a[2].split(',') { match parse_tok(t) { Some(t) => toks.push(t), None => return Some("bad-request".into()) } } }
     let race = op == "c12.race";
     if !race && toks.iter().any(|t| matches!(t, Tok::RaceDisc(_) | Tok::RaceSend(..))) { return Some("bad-request".into()); }
-    Some(match run_session(minh, &seg, &toks) {
+    // the whole session runs under a watchdog: dropping a peer whose receive thread is deadlocked on its own tcp_writer
+    // mutex would block this thread too (Peer::drop calls disconnect()).  Once several sessions of one generated run have hit
+    // the watchdog the rest of the run is not executed (each would cost the watchdog again; the hangs found are the report).
+    if GENERATING.load(Ordering::SeqCst) && WATCHDOG_HITS.load(Ordering::SeqCst) >= 6 { return Some("skipped:watchdog".into()); }
+    let r = on_thread_for(Duration::from_secs(25), move || match run_session(minh, &seg, &toks) {
         Ok(s) => if race { summarise_race(&s) } else { render_session(&s) },
         Err(e) => e,
-    })
+    });
+    if r.is_none() { WATCHDOG_HITS.fetch_add(1, Ordering::SeqCst); }
+    Some(r.unwrap_or_else(|| "hang".into()))
 }
 
 // ------------------------------------------------------------------------------------------------
@@ -613,6 +640,7 @@ fn session(minh: i32, seg: &str, toks: &[String]) -> String { format!("c12.sessi
 /// connect_internal, not the harness copy, reassembles them): 1-4 messages, at least one with a payload of several hundred
 /// bytes, written frame by frame in k-byte segments (k in 7..250) with 1-2 ms between segments, then a half-close.
 pub fn gen_fragmented(rng: &mut Rng, out: &mut Vec<String>, n: usize) {
+    GENERATING.store(true, Ordering::SeqCst);
     for i in 0..n {
         let mut t: Vec<String> = vec![format!("f:{}", cp(&good_version(rng))), "f:verack:-".to_string()];
         let big = match i % 3 {
@@ -631,6 +659,7 @@ pub fn gen_fragmented(rng: &mut Rng, out: &mut Vec<String>, n: usize) {
 }
 
 pub fn gen(tier: &str, rng: &mut Rng, out: &mut Vec<String>) {
+    GENERATING.store(true, Ordering::SeqCst);
     // steered sessions: the interleaving model replayed through the H3 sync points (c12conc.rs)
     if chain_gang::util::verif_hooks::PEER_HOOKS { conc::gen_conc(tier, &mut rng.fork(), out); }
     let thorough = tier == "thorough";
